@@ -98,7 +98,8 @@ MAIN = {
                "{% for x in xs %}{% block s scoped %}{{ x }}{{ sv }}{% endblock %}{% block ns %}{{ x }}{% endblock %}{% endfor %}{{ self.b() }}",
     "t_with": "{% with a = va, b = a2 %}{{ a }}{{ b }}{{ cc }}{% if c1 %}{% set a = 5 %}{% set d = 6 %}{% endif %}{{ d }}{% endwith %}{{ a }}{{ d }}",
     "t_filterblk": "{% filter replace(fa, fb) %}{{ inner }}{% if c1 %}{{ i2 }}{% set fv = 1 %}{% endif %}{{ fv }}{% endfilter %}{{ fv }}",
-    "t_setblk": "{% set blk %}{{ s1 }}{% if c1 %}{{ s2 }}{% set sb = 1 %}{% endif %}{{ sb }}{% endset %}{{ blk }}{% set fb | upper %}{{ s3 }}{% endset %}{{ sb }}",
+    "t_setblk": "{% set blk %}{{ s1 }}{% if c1 %}{{ s2 }}{% set sb = 1 %}{% endif %}{{ sb }}{% endset %}{{ blk }}{% set fb | upper %}{{ s3 }}{% endset %}{{ sb }}"
+                "{% set fc | default(sd1) | default(sd2 if c2 else sd3) %}{{ s4 }}{% endset %}",
     "t_ns": "{% set ns = namespace(v=init) %}{% for x in xs %}{% set ns.v = ns.v + step %}{% if c1 %}{% set ns.w = x %}{% endif %}{% endfor %}"
             "{{ ns.v }}{% if c2 %}{{ ns2.q }}{% endif %}",
     "t_condexpr": "{{ a if c1 else b }}{{ (x1 if c2) }}{{ c1 and d1 or d2 }}{{ [e1, e2][0 if c3 else 1] }}{% set r = r1 if c1 else r2 %}{{ r }}",
